@@ -31,7 +31,7 @@ int lltd_port_get_wifi_mode(void *ctx, uint8_t *out);
 // blobs: name, ipv4(4), ipv6(16), hostname
 static Verdict run(const Case &c) {
     Verdict v;
-    uint32_t ifType = (uint32_t)c.c(0), medium = (uint32_t)c.c(1), mtu = (uint32_t)std::max<int64_t>(576, std::min<int64_t>(c.c(2, 1500), 9216)), speed = (uint32_t)c.c(3), flags = (uint32_t)c.c(4);
+    uint32_t ifType = (uint32_t)c.c(0), medium = (uint32_t)c.c(1), mtu = (uint32_t)std::max<int64_t>(576, std::min<int64_t>(c.c(2, 1500), 1 << 20)),   /* the record's MTU is copied whatever it is: 65536 is the loopback device's default */ speed = (uint32_t)c.c(3), flags = (uint32_t)c.c(4);
     Mac mac = mac_from_u64((uint64_t)c.c(5, 0x020000000001LL));
     int sel = (int)c.c(6, 3);
     auto blob = [&](size_t i, size_t n) { Bytes b = i < c.blobs.size() ? c.blobs[i] : Bytes(); if (n) b.resize(n, 0); return b; };
@@ -124,7 +124,7 @@ int main(int argc, char **argv) {
     auto gen = rc::gen::exec([=] {
         Case c;
         auto g32 = [&] { return gx::bnd(d32, 0, 0xFFFFFFFFLL, 1, 1); };
-        c.cfg = {*g32(), *gx::bnd({0, 0x10, 0x20, 0x30, 0x100000, 0xFFFFFFFFLL, 0xFFFFFFEFLL}, 0, 0xFFFFFFFFLL, 3, 1), *gx::pick({576, 1500, 9000, 9216}), *g32(),
+        c.cfg = {*g32(), *gx::bnd({0, 0x10, 0x20, 0x30, 0x100000, 0xFFFFFFFFLL, 0xFFFFFFEFLL}, 0, 0xFFFFFFFFLL, 3, 1), *gx::pick({576, 1500, 9000, 9216, 577, 1280, 65535, 65536, 65537, 131072}), *g32(),
                  *gx::bnd({0, 0x8, 0x1, 0x1043, 0x1049, 0xFFFF, 0xFFF7}, 0, 0xFFFF, 3, 1), *gx::range<int64_t>(0, 0xFFFFFFFFFFFFLL), *gx::bnd({3, 3, 7, 1, 2, 0, 11, 19}, 0, 31, 4, 1), *gx::range<int64_t>(0, 4)};
         c.blobs = {*gx::bytes(0, 6), *gx::bytes(4, 4), *gx::bytes(16, 16), *gx::bytes(0, 40)};
         return c;
